@@ -151,6 +151,23 @@ fn verif_grid() {
             }
         });
     }
+    // other key types: REAL keys pair by numeric value (0.0 with -0.0, 1 with 1.0), TIMESTAMP keys by instant
+    g.case("real-keys", || {
+        let def = "CREATE TABLE t(line = '^x=(\\\\S+)$', line[1] => x REAL); CREATE TABLE u(line = '^y=(\\\\S+) n=(\\\\w+)$', line[1] => y REAL, line[2] => name TEXT);";
+        let file = write_temp("joined", &join_lines(&["y=0.0 n=zero", "y=1.0 n=one", "y=1.5 n=half", "y=x n=bad", "y=1e0 n=uno"]));
+        let r = q(def, &format!("SELECT x, u.name FROM t INNER JOIN u::'{}' ON t.x = u.y", file.display()), &["x=-0.0", "x=1", "x=1.5000000000000002", "x=2"]);
+        let _ = std::fs::remove_file(&file);
+        let want = vec![r#"{"x":-0.0,"u.name":"zero"}"#, r#"{"x":1.0,"u.name":"one"}"#, r#"{"x":1.0,"u.name":"uno"}"#];
+        match r { Outcome::Lines(l, _) => if l.iter().map(|s| s.as_str()).collect::<Vec<_>>() == want { Ok(()) } else { Err(format!("join on REAL keys printed {:?}, expected {:?}", l, want)) }, other => Err(format!("{:?}", other)) }
+    });
+    g.case("timestamp-keys", || {
+        let def = "CREATE TABLE t(line = '^at=(.+)$', line[1] => at TIMESTAMP); CREATE TABLE u(line = '^when=(.+) what=(\\\\w+)$', line[1] => at2 TIMESTAMP, line[2] => what TEXT);";
+        let file = write_temp("joined", &join_lines(&["when=2020-01-01 00:00:00 what=newyear", "when=2020-06-15 12:30:00 what=noonish", "when=never what=bad"]));
+        let r = q(def, &format!("SELECT u.what FROM t INNER JOIN u::'{}' ON t.at = u.at2", file.display()), &["at=2020-06-15 12:30:00", "at=2020-06-15 12:30:01", "at=2020-01-01 00:00:00", "at=junk"]);
+        let _ = std::fs::remove_file(&file);
+        let want = vec![r#"{"u.what":"noonish"}"#, r#"{"u.what":"newyear"}"#];
+        match r { Outcome::Lines(l, _) => if l.iter().map(|s| s.as_str()).collect::<Vec<_>>() == want { Ok(()) } else { Err(format!("join on TIMESTAMP keys printed {:?}, expected {:?}", l, want)) }, other => Err(format!("{:?}", other)) }
+    });
     // a missing join column or joined file is an error, never an empty result
     g.case("missing-file", || match q(DEF, "SELECT user FROM t INNER JOIN hosts::'/nonexistent/verif_grid_no_such_file' ON t.host = hosts.name", &["u=ann h=alpha c=1"]) {
         Outcome::Error(_) => Ok(()), other => Err(format!("a missing joined file gives {:?}", other)) });
